@@ -84,6 +84,8 @@ def model_check(module: str, cfg: str, *, workers: int = 8, timeout: int = 900, 
             res["violated"] = mi.group(1)
         elif mp:
             res["violated"] = mp.group(1) or "temporal"
+        elif "Temporal properties were violated" in out or "is violated" in out and "Temporal" in out:
+            res["violated"] = "temporal"
         elif "Deadlock reached" in out:
             res["violated"] = "Deadlock"
         elif "Assumption" in out and "is false" in out:
@@ -245,11 +247,11 @@ def dump_graph(module: str, cfg: str, *, timeout: int = 600, env=None, heap="4g"
             raise MachineryError(f"TLC dump of {module}/{cfg} failed rc={rc}:\n{out[-3000:]}")
         text = (scratch / "graph.dot").read_text()
         nodes, edges, inits = {}, [], []
-        for m in re.finditer(r'^(-?\d+) \[label="(.*?)"(,style = filled)?\];?$', text, re.M | re.S):
+        for m in re.finditer(r'^(-?\d+) \[label="((?:[^"\\]|\\.)*)"([^\]]*)\]', text, re.M):
             nodes[m.group(1)] = m.group(2).replace("\\n", "\n").replace('\\"', '"').replace("\\\\", "\\")
-            if m.group(3):
+            if "style = filled" in m.group(3):
                 inits.append(m.group(1))
-        for m in re.finditer(r'^(-?\d+) -> (-?\d+) \[label="(.*?)"', text, re.M):
+        for m in re.finditer(r'^(-?\d+) -> (-?\d+) \[label="((?:[^"\\]|\\.)*)"', text, re.M):
             edges.append((m.group(1), m.group(2), m.group(3)))
         m = None
         for m in _RE_STATES.finditer(out):
